@@ -11,7 +11,7 @@
  * stdout: one line per op  `<clobbered 0|1> <count> o0 o1 ...`  (pts of the released output buffers in
  *         release order) -- the same canonical line as `svtmodel reorder`.
  *         `bad-depth` if D differs from the real depth.
- * stderr: `pn-mismatch op=<line index> count=.. first=..` when the entry bookkeeping `picture_number += DEPTH`
+ *         followed by a comment line `# pn-mismatch op=<line index> count=.. first=..` when the entry bookkeeping `picture_number += DEPTH`
  *         (release_frames l.588) disagrees with the decode_order written into that entry (must never happen
  *         for window-respecting arrival orders).
  *
@@ -19,21 +19,7 @@
  *   insert  l.654-657, 828, 833:  entry = queue[decode_order % DEPTH]; entry->show_frame = ..; entry->output_stream_wrapper_ptr = wrapper;
  *   drain   l.883-909:            while ((frames = count_frames_in_next_tu(ctx, &bytes))) { ...; release_frames(ctx, frames); }
  */
-#include <stdio.h>
-#include <stdlib.h>
-#include <string.h>
-#include <stdint.h>
-#include "EbDefinitions.h"
-#include "EbSvtAv1Enc.h"
-#include "EbSystemResourceManager.h"
-#include "EbEncodeContext.h"
-#include "EbPacketizationReorderQueue.h"
-#include "EbLog.h"
-
-/* stubs for what the extracted text references besides the structs */
-#define TD_SIZE 2
-static void encode_td_av1(uint8_t *p) { p[0] = 0x12; p[1] = 0x00; }
-#include "pktz_extracted.inc"
+#include "pktz_stubs.h"
 
 static EncodeContext *new_ctx(void) {
     EncodeContext *c = (EncodeContext *)calloc(1, sizeof(*c));
@@ -104,7 +90,7 @@ int main(void) {
         printf("%d %zu", clobbered, nout);
         for (size_t k = 0; k < nout && k < n; k++) printf(" %lld", (long long)out[k]);
         printf("\n");
-        if (pn_mismatch) fprintf(stderr, "pn-mismatch op=%lu count=%llu first=%llu\n", opno, pn_mismatch, first_bad);
+        if (pn_mismatch) printf("# pn-mismatch op=%lu count=%llu first=%llu\n", opno, pn_mismatch, first_bad);
         opno++;
         free(out); free(hdr); free(wr); free(arr); free_ctx(ctx);
     }
